@@ -628,7 +628,58 @@ func c19Wire(r *ev.Run, batch int) {
 			return true
 		}
 		pp := prng.Derive(r.Seed, "C19wireops", round)
+		var cookies []interface{}
+		rp := prng.Derive(r.Seed, "C19wirerpc", round)
 		for i := 0; i < per; i++ {
+			if i%4 == 3 {
+				// a request of another method (monitors stay registered on the connection, so
+				// the transactions that follow are also notified through them)
+				method, params := c19RPC(rp, s, &cookies)
+				pb, _ := json.Marshal(params)
+				r.Eval(1)
+				r.Distinct("rpc" + method + string(pb))
+				r.Count("wire.other_requests", 1)
+				r.Count("wire.method."+method, 1)
+				r.LogCase(fmt.Sprintf("C19 wire schema=%s method=%s params=%s", s.JSON(), method, pb))
+				var reply json.RawMessage
+				// Whether this request is answered is not judged (parameters that the JSON-RPC
+				// layer cannot decode are dropped by it without an answer): the server must
+				// survive it and keep answering.
+				cerr := pr.Call(method, params, &reply, 250*time.Millisecond)
+				switch {
+				case cerr == nil:
+					r.Count("wire.other.result_reply", 1)
+				case strings.Contains(cerr.Error(), "no reply within"):
+					r.Count("wire.other.unanswered", 1)
+				default:
+					r.Count("wire.other.rpc_error_reply", 1)
+				}
+				_ = pr.Take()
+				if eerr := pr.Echo(20 * time.Second); eerr != nil {
+					time.Sleep(50 * time.Millisecond)
+					lb, _ := os.ReadFile(srv.logf)
+					lt := string(lb)
+					wit := map[string]interface{}{"schema": json.RawMessage(s.JSON()), "method": method, "params": json.RawMessage(pb), "server_output": trunc(lt, 3000)}
+					if msg := panicLine(lt); msg != "" {
+						stack := lt
+						if ix := strings.Index(lt, msg); ix >= 0 {
+							stack = lt[ix:]
+						}
+						wit["server_output"] = trunc(stack, 3000)
+						r.Violation("C19/wire/server-died/"+method+"/"+ev.PanicSignature(msg, stack), "the server process died while handling a "+method+" request: "+msg, wit)
+					} else if strings.Contains(eerr.Error(), "no reply within") {
+						r.Violation("C19/wire/server-stops-answering/"+method, "no echo reply within 20 s after a "+method+" request", wit)
+					} else {
+						r.Violation("C19/wire/connection-lost/"+method+"/"+errClassOf(eerr.Error()), "the server dropped the connection after a "+method+" request: "+eerr.Error(), wit)
+					}
+					if !restart() {
+						r.Inconclusive("cannot restart server process")
+						return
+					}
+					cookies = nil
+				}
+				continue
+			}
 			_, text := corruptOps(pp, m, g, pre)
 			if text == nil {
 				continue
@@ -700,6 +751,145 @@ func c19Wire(r *ev.Run, batch int) {
 		pr.Close()
 		srv.stop()
 	}
+}
+
+// c19RPC builds a request of another method than transact: valid parameters for the method
+// (monitor requests over the schema's tables, cancels of cookies used before, get_schema,
+// ...), structurally corrupted 0-3 times, or parameters of the wrong arity or shape.
+func c19RPC(p *prng.R, s *tspace.Schema, cookies *[]interface{}) (string, interface{}) {
+	methods := []string{"monitor", "monitor", "monitor_cond", "monitor_cond", "monitor_cond_since", "monitor_cond_since", "monitor_cancel", "get_schema", "list_dbs", "transact", "echo", "lock", "steal", "unlock", "set_db_change_aware", "bogus"}
+	method := methods[p.Intn(len(methods))]
+	request := func() interface{} {
+		t := s.Tables[p.Intn(len(s.Tables))]
+		req := map[string]interface{}{}
+		if p.Chance(3, 4) {
+			cols := []interface{}{}
+			for _, c := range t.Cols {
+				if p.Bool() {
+					cols = append(cols, c.Name)
+				}
+			}
+			switch p.Intn(12) {
+			case 0:
+				cols = append(cols, "no_such_column")
+			case 1:
+				cols = append(cols, "_uuid", "_version")
+			case 2:
+				if len(cols) > 0 {
+					cols = append(cols, cols[0])
+				}
+			}
+			req["columns"] = cols
+		}
+		if p.Chance(3, 4) {
+			sel := map[string]interface{}{}
+			for _, k := range []string{"initial", "insert", "delete", "modify"} {
+				if p.Bool() {
+					sel[k] = p.Bool()
+				}
+			}
+			req["select"] = sel
+		}
+		if method != "monitor" && p.Bool() {
+			c := t.Cols[p.Intn(len(t.Cols))]
+			fns := []string{"==", "!=", "<", ">=", "includes", "excludes", "bogus"}
+			args := []interface{}{0, 1.5, "s", true, []interface{}{"set", []interface{}{}}, []interface{}{"map", []interface{}{}}, []interface{}{"uuid", p.UUID()}, []interface{}{"named-uuid", "x"}, nil}
+			req["where"] = []interface{}{[]interface{}{c.Name, fns[p.Intn(len(fns))], args[p.Intn(len(args))]}}
+			if p.Chance(1, 6) {
+				req["where"] = []interface{}{p.Bool()}
+			}
+		}
+		return req
+	}
+	requests := func() interface{} {
+		out := map[string]interface{}{}
+		for k := 1 + p.Intn(2); k > 0; k-- {
+			t := s.Tables[p.Intn(len(s.Tables))]
+			switch p.Intn(8) {
+			case 0:
+				out[t.Name] = []interface{}{request(), request()}
+			case 1:
+				out["no_such_table"] = request()
+			default:
+				out[t.Name] = request()
+			}
+		}
+		return out
+	}
+	cookie := func() interface{} {
+		var c interface{}
+		switch p.Intn(5) {
+		case 0:
+			c = p.Intn(4)
+		case 1:
+			c = nil
+		case 2:
+			c = map[string]interface{}{"id": p.UUID()[:4]}
+		case 3:
+			c = []interface{}{"c", p.Intn(3)}
+		default:
+			c = "cookie-" + p.UUID()[:2]
+		}
+		*cookies = append(*cookies, c)
+		return c
+	}
+	old := func() interface{} {
+		if len(*cookies) == 0 || p.Chance(1, 5) {
+			return "never-used"
+		}
+		return (*cookies)[p.Intn(len(*cookies))]
+	}
+	var params interface{}
+	switch method {
+	case "monitor", "monitor_cond":
+		params = []interface{}{s.Name, cookie(), requests()}
+	case "monitor_cond_since":
+		ids := []interface{}{"00000000-0000-0000-0000-000000000000", p.UUID(), "not-a-uuid", nil, 7}
+		params = []interface{}{s.Name, cookie(), requests(), ids[p.Intn(len(ids))]}
+	case "monitor_cancel":
+		params = []interface{}{old()}
+	case "get_schema":
+		params = []interface{}{[]interface{}{s.Name, "no_such_db", "_Server", 1, nil}[p.Intn(5)]}
+	case "list_dbs":
+		params = []interface{}{}
+	case "transact":
+		params = [][]interface{}{{}, {s.Name}, {1, map[string]interface{}{"op": "comment", "comment": "x"}}, {"no_such_db", map[string]interface{}{"op": "comment", "comment": "x"}}, {s.Name, 1, "x", nil, []interface{}{}}}[p.Intn(5)]
+	case "echo":
+		params = []interface{}{"a", 1, nil, map[string]interface{}{}}
+	default:
+		params = []interface{}{"lock-" + p.UUID()[:2]}
+	}
+	switch p.Intn(10) {
+	case 0, 1, 2:
+		var v interface{}
+		b, _ := json.Marshal(params)
+		_ = json.Unmarshal(b, &v)
+		params = corrupt(p, v, 1+p.Intn(3))
+	case 3:
+		// wrong arity / shape of the parameter list itself
+		l, _ := params.([]interface{})
+		switch p.Intn(6) {
+		case 0:
+			params = []interface{}{}
+		case 1:
+			if len(l) > 0 {
+				params = l[:len(l)-1]
+			}
+		case 2:
+			params = append(append([]interface{}{}, l...), weird(p))
+		case 3:
+			params = map[string]interface{}{"db": s.Name}
+		case 4:
+			params = nil
+		default:
+			if len(l) > 0 {
+				l2 := append([]interface{}{}, l...)
+				l2[p.Intn(len(l2))] = weird(p)
+				params = l2
+			}
+		}
+	}
+	return method, params
 }
 
 // waitWithoutTimeout reports whether a request holds a wait operation without a (non-null) timeout.
